@@ -15,6 +15,7 @@ mod c04;
 mod c19;
 mod c20;
 mod c12;
+mod c15;
 
 pub use util::*;
 
@@ -38,6 +39,7 @@ fn props() -> Vec<Prop> {
         Prop { id: "C19", run: c19::run, gen: c19::gen },
         Prop { id: "C20", run: c20::run, gen: c20::gen },
         Prop { id: "C12", run: c12::run, gen: c12::gen },
+        Prop { id: "C15", run: c15::run, gen: c15::gen },
     ]
 }
 
